@@ -648,6 +648,41 @@ example : let doc := "  Summary `x`.\n\n    - item *oops\n      more\n\n    :foo
     noOverIndent doc = true ∧ hasText doc = true ∧ dropped doc ≤ 2 ∧
       reportedLine .rst 7 doc 6 false ⟨.unknownField, 5, 0⟩ = .num 12 := by decide
 
+/-! ### inherited docstrings: the report stays with the docstring -/
+
+/-- **inherited_report_in_source**: when an object without docstring shows the docstring written
+on `source`, every problem is reported in `source`'s file, on the line computed from `source`'s
+`docstring_lineno` — independent of the inheriting object (its file, its `linenumber`). -/
+theorem inherited_report_in_source (source obj : Located) (sec : Sec) (off : Int) :
+    reportInherited source obj sec off = (source.file, report source.obj sec off) := rfl
+
+theorem inherited_report_independent (source obj obj' : Located) (sec : Sec) (off : Int) :
+    reportInherited source obj sec off = reportInherited source obj' sec off := rfl
+
+/-- with the layout hypothesis the inherited report names the physical line of the block in the
+file that contains the docstring (field classes; the other classes compose the same way) -/
+theorem inherited_field_line_correct_partial (fmt : Fmt) (cls : Cls) (sl : Nat) (doc : List Char)
+    (source obj : Located) (raw j : Nat) (hf : fmt = .epytext ∨ fmt = .rst)
+    (hc : cls = .unknownField ∨ cls = .badParam) (hs : 0 < sl)
+    (hl : noOverIndent doc = true) (ht : hasText doc = true) :
+    reportedAt fmt sl doc source obj ⟨cls, raw, j⟩ = (source.file, .num ((sl : Int) + raw)) := by
+  have := reported_line_correct_field_partial fmt cls sl doc source.obj.linenumber source.obj.isModule
+    raw j hf hc hs hl ht
+  simp only [reportedLine, reportedLineB] at this
+  simp only [reportedAt, reportInherited, reportTarget, constructOffset, this]
+
+/-- what reporting on the inheriting object instead would print: its file, and a line derived
+from its own `def` when it has no docstring — a place that contains no docstring at all. -/
+theorem report_on_inheriting_object_wrong (source obj : Located) (off : Int)
+    (hf : obj.file ≠ source.file) :
+    (obj.file, report obj.obj .docstring off) ≠ reportInherited source obj .docstring off := by
+  intro h
+  simp only [reportInherited, reportTarget, Prod.mk.injEq] at h
+  exact hf h.1
+
+example : reportedAt .epytext 5 "\n Text L{x}".toList ⟨1, ⟨0, 4, false⟩⟩ ⟨2, ⟨0, 12, false⟩⟩
+    ⟨.badXref, 1, 0⟩ = (1, .num 6) := by decide
+
 /-! ### **shift** -/
 
 /-- Moving the definition down by `k` lines (string literal on `sl + k`, whatever happens to the
